@@ -1,0 +1,15 @@
+//go:build verif
+
+package object
+
+// VerifEnvHook, when set, receives every scope operation of an Env:
+// "enclose" (NewEnclosedEnv, with the outer scope), "set" (Set, with the
+// value and whether it was stored) and "loop" (SetLoopVar, with the
+// loop object).
+var VerifEnvHook func(op string, env, outer *Env, key string, val Object, ok bool)
+
+func verifEnv(op string, env, outer *Env, key string, val Object, ok bool) {
+	if h := VerifEnvHook; h != nil {
+		h(op, env, outer, key, val, ok)
+	}
+}
